@@ -262,6 +262,23 @@ func (m *MQ) Publish(subject string, payload []byte) int {
 	return len(targets)
 }
 
+// RawLog returns the traffic log from index from on, without canonicalisation.
+func (m *MQ) RawLog(from int) []MQRecord {
+	m.mu.Lock()
+	defer m.mu.Unlock()
+	if from > len(m.log) {
+		from = len(m.log)
+	}
+	return append([]MQRecord(nil), m.log[from:]...)
+}
+
+// LogLen returns the number of log records.
+func (m *MQ) LogLen() int {
+	m.mu.Lock()
+	defer m.mu.Unlock()
+	return len(m.log)
+}
+
 // Log returns a copy of the traffic log.
 func (m *MQ) Log() []MQRecord {
 	m.mu.Lock()
